@@ -123,6 +123,35 @@ def enc_dict(d):
     return out
 
 
+# every representation of an equal mapping the clean library accepts (it only uses .items() / iteration);
+# "dict" keeps the insertion order of the generator (already shuffled), "reversed" turns it round
+MFORMS = ["dict", "reversed", "OrderedDict", "defaultdict", "dict-subclass", "MappingProxyType"]
+
+
+class _ConfDict(dict):
+    """a plain subclass of dict"""
+
+
+def as_mapping(d, mform):
+    import collections, types
+    items = list(d.items())
+    if mform == "dict":
+        return dict(items)
+    if mform == "reversed":
+        return dict(reversed(items))
+    if mform == "OrderedDict":
+        return collections.OrderedDict(items)
+    if mform == "defaultdict":
+        m = collections.defaultdict(bytes)
+        m.update(items)
+        return m
+    if mform == "dict-subclass":
+        return _ConfDict(items)
+    if mform == "MappingProxyType":
+        return types.MappingProxyType(dict(items))
+    raise ValueError(mform)
+
+
 class Recorder:
     def __init__(self):
         self.Bf3File, self.mk_comp, self.tlv = _lib()
@@ -133,18 +162,22 @@ class Recorder:
         self.inputs[self.tid] = (d, extra, src)
         return self.tid
 
-    def rec_tlv(self, d, src):
+    def rec_tlv(self, d, src, mform=None):
+        """mform: the representation in which the (equal) mapping is handed over; the event records the entries in the
+        order of that mapping"""
         tid = self._new(d, None, src)
-        ev = {"tid": tid, "op": "tlv", "dict": enc_dict(d), "k": "ok", "cls": "", "blocks": []}
+        mform = mform or MFORMS[tid % len(MFORMS)]
+        m = as_mapping(d, mform)
+        ev = {"tid": tid, "op": "tlv", "dict": enc_dict(m), "k": "ok", "cls": "", "blocks": [], "mform": mform}
         try:
-            ev["blocks"] = [B(b) for b in self.tlv(dict(d))]
+            ev["blocks"] = [B(b) for b in self.tlv(m)]
         except Exception as e:                                    # noqa: BLE001  (recorded, judged by TLC)
             ev["k"], ev["cls"] = "raise", type(e).__name__
         ev["_cost"] = 1 + sum(len(c or b"") for c in d.values()) // 64
         self.evs.append(ev)
         return ev
 
-    def rec_setcfg(self, d, extra, src, prefill=False, form=None, file=None):
+    def rec_setcfg(self, d, extra, src, prefill=False, form=None, file=None, mform=None):
         """extra: the caller's blocks (recorded as such); form: the kind of Iterable[bytes] they are handed over in;
         file: an existing Bf3File to update (histories), else a fresh one."""
         tid = self._new(d, extra, src)
@@ -155,13 +188,15 @@ class Recorder:
             form = "omitted" if not blocks else FORMS[tid % len(FORMS)]
         if form == "keysview" and len(set(blocks)) != len(blocks):
             form = "generator"
-        ev = {"tid": tid, "op": "setcfg", "dict": enc_dict(d), "extra": [B(x) for x in blocks], "k": "ok", "cls": "",
-              "desc": [], "blob": [], "alen": 0, "enc": 0, "form": form}
+        mform = mform or MFORMS[tid % len(MFORMS)]
+        m = as_mapping(d, mform)
+        ev = {"tid": tid, "op": "setcfg", "dict": enc_dict(m), "extra": [B(x) for x in blocks], "k": "ok", "cls": "",
+              "desc": [], "blob": [], "alen": 0, "enc": 0, "form": form, "mform": mform}
         try:
             if form == "omitted":
-                f.set_config(dict(d))
+                f.set_config(m)
             else:
-                f.set_config(dict(d), as_iterable(blocks, form))
+                f.set_config(m, as_iterable(blocks, form))
             c = f.components[-1]
             ev.update(desc=[[int(t), B(v)] for t, v in c.description.items()], blob=B(c.blob), alen=int(c.actual_len),
                       enc=1 if c.encrypt_by_session_key else 0)
@@ -244,6 +279,9 @@ def histories(rec, r, n):
         rec.rec_setcfg(d, x1, src, form="list")
         rec.rec_setcfg(d, x1, src, form="generator")
         rec.rec_setcfg(d, [], src, file=f)
+        for mform in MFORMS:                                      # the equal mapping in every representation
+            rec.rec_tlv(d, src, mform=mform)
+            rec.rec_setcfg(d, x2 if j % 2 else [], src, file=f if j % 3 == 0 else None, mform=mform)
     return len(rec.evs) - n0
 
 
@@ -341,6 +379,10 @@ def run(tier):
         for form in FORMS:                                           # every form at least once on a fixed dictionary
             rec.rec_setcfg({(0x0101, 1): b"abc", (0x0102, None): None}, [b"\x02\xAA\xBB", b"\x01\xCC\xDD\x07\x01\x99"],
                            ("forms", form), form=form)
+        unsorted = {(0x0300, 2): b"late", (0x0300, 1): b"early", (0x0101, 7): b"\x01\x02", (0x0200, 9): None, (0x0100, None): None}
+        for mform in MFORMS:                                         # assignments first, keys descending, deletions last
+            rec.rec_tlv(unsorted, ("mapping-forms", mform), mform=mform)
+            rec.rec_setcfg(unsorted, [b"\x02\xAA\xBB"], ("mapping-forms", mform), mform=mform, form="list")
         n_real = len(rec.evs)
         # ---------------- binding self-test: corrupted canaries must be rejected
         good = next(e for e in rec.evs if e["op"] == "setcfg" and e["k"] == "ok" and len(e["blob"]) > 12
@@ -387,7 +429,8 @@ def run(tier):
             small = {k: v for k, v in ev.items() if not k.startswith("_")}
             rep.violation(key, "%s on dictionary %s: specification verdict '%s'%s" % (
                 "conf_dict_to_tlv" if ev["op"] == "tlv" else "Bf3File.set_config",
-                _show(d) + ((", extra blocks as %s" % ev["form"]) if ev.get("form") not in (None, "omitted") else ""), clause,
+                _show(d) + (" handed over as %s" % ev["mform"] if ev.get("mform") not in (None, "dict") else "")
+                + ((", extra blocks as %s" % ev["form"]) if ev.get("form") not in (None, "omitted") else ""), clause,
                 (" (raised %s)" % ev["cls"]) if ev["k"] == "raise" else "") + (" [history %s]" % (src[1],) if src[0] == "history" else ""),
                 {"event": small, "source": src[0], "tlc_case": src[1]})
         if not any(t in rejd for t in cex_tids):
@@ -400,8 +443,8 @@ def run(tier):
                        {"cases": len(chosen), "cases_length_le_3_available": len(cases3), "cases_length_4_sampled": len(cases4),
                         "events": n_s2c, "all_length_le_3": thorough})
         rep.add_trace("Trace_ConfigTlv (real conf_dict_to_tlv / set_config bytes judged by the declarative validity)", st,
-                      n_real, extra={"s2c_events": n_s2c, "random_dict_events": n_real - n_s2c - n_hist - len(FORMS), "history_events": n_hist,
-                                     "extra_block_forms": FORMS, "canaries": len(canaries),
+                      n_real, extra={"s2c_events": n_s2c, "random_dict_events": n_real - n_s2c - n_hist - len(FORMS) - 2 * len(MFORMS), "history_events": n_hist,
+                                     "extra_block_forms": FORMS, "mapping_forms": MFORMS, "canaries": len(canaries),
                                      "rejected_real_events": len([t for t in rejd if t not in canaries])})
         for e in (rec.evs[0], rec.evs[n_s2c + 1], rec.evs[1]):
             rep.sample({k: v for k, v in e.items() if not k.startswith("_")})
